@@ -498,7 +498,7 @@ def run(ctx, res):
     # ---- the real binary: finding ids and --dump facts (values, value types) of a program == those of its expansion --------
     clean = [k for k in range(len(cases)) if ho[2 * k] == ho[2 * k + 1]]
     cd = [k for k in clean if k in set(distinct)]
-    pick = rng.sample(cd, min(40 if thorough else 6, len(cd))) + rng.sample(clean, min(40 if thorough else 4, len(clean)))
+    pick = rng.sample(cd, min(40 if thorough else 3, len(cd))) + rng.sample(clean, min(40 if thorough else 2, len(clean)))
     nbad = 0
     for k in pick:
         a, b = mo[k].split()[:2]
@@ -508,11 +508,11 @@ def run(ctx, res):
     res.traces_validated += len(pick) - nbad
     res.extra["cli_alias_pairs"] = len(pick)
     # ---- the other two families of the property, sampled through the real binary only (no model) ---------------------------
-    for i in range(40 if thorough else 5):
+    for i in range(40 if thorough else 3):
         a, b = gen_macro_pair(rng)
         res.count("cli-macro-pair")
         cli_pair(ctx, res, "a text with macros and its hand expansion", a, b, False, dict(kind="text", cpp=False, a=a, b=b), facts=False, known=[(KEY_MACRO, MACRO_IDS)])
-    for i in range(40 if thorough else 5):
+    for i in range(40 if thorough else 3):
         a, b = gen_template_pair(rng)
         res.count("cli-template-pair")
         cli_pair(ctx, res, "an explicitly instantiated template and the hand-written entity", a, b, True, dict(kind="text", cpp=True, a=a, b=b), facts=False)
